@@ -265,7 +265,7 @@ impl<'a, T: AsRef<str>> Tokenizer<'a, T> {
         }
 
         if let Some(pos) = latest_pos {
-            if let Ok(number) = digits.parse::<f64>() {
+            if let Some(number) = digits.parse::<f64>().ok().filter(|n| n.is_finite()) {
                 self.index += pos;
                 Some(Ok(Token::NumericLiteral(number)))
             } else {
